@@ -73,6 +73,7 @@ func runC05(c *Ctx) {
 		c05PackConnect(r)
 		c05PackSubscribe(r)
 		c05PackAcks(r)
+		c05Oversize(r)
 	} else {
 		c.Note("C05: the white-box wrapper around the packet structs does not compile against this tree; the Pack-level enumeration is skipped, only the client-level parts (bytes on the wire of real clients) are judged")
 	}
@@ -918,4 +919,67 @@ func c05PackAcks(r *c05Run) {
 	}
 	r.add("ack_pack", n)
 	c.Bound("ack_pack", "PUBACK, PUBREC, PUBREL, PUBCOMP packers for every id 1..65535: 4 bytes, reserved flags 0000 (PUBREL 0010), id equal; PINGREQ / DISCONNECT bytes are judged at client level")
+}
+
+// ---------------------------------------------------------------------------------------------
+// Part 1g: strings the protocol cannot carry (longer than 65,535 bytes).  Their two-byte length
+// prefix cannot hold the length: the packer must refuse (the library panics before anything is
+// produced); producing bytes would put a packet with a truncated length prefix on the wire.
+
+func c05Oversize(r *c05Run) {
+	c := r.c
+	c.Bound("oversize_strings", "topic / filter / client id / user name / will topic of 65,536 and 65,541 bytes through the packers: either nothing is produced (refusal, a panic included) or what is produced decodes to exactly the given string")
+	for _, n := range []int{65536, 65541} {
+		big := strings.Repeat("x", n)
+		cases := []struct {
+			name string
+			pack func() []byte
+			get  func(p *env.Packet) string
+		}{
+			{"publish-topic", func() []byte { return mqtt.VerifPackPublish(&mqtt.Message{Topic: big, Payload: []byte("p")}) }, func(p *env.Packet) string { return p.Topic }},
+			{"subscribe-filter", func() []byte { return mqtt.VerifPackSubscribe(1, []mqtt.Subscription{{Topic: big, QoS: mqtt.QoS1}}) }, func(p *env.Packet) string {
+				if len(p.Filters) == 1 {
+					return p.Filters[0]
+				}
+				return ""
+			}},
+			{"unsubscribe-filter", func() []byte { return mqtt.VerifPackUnsubscribe(1, []string{big}) }, func(p *env.Packet) string {
+				if len(p.Filters) == 1 {
+					return p.Filters[0]
+				}
+				return ""
+			}},
+			{"connect-client-id", func() []byte { return mqtt.VerifPackConnect(4, true, 0, big, "", "", nil) }, func(p *env.Packet) string { return p.ClientID }},
+			{"connect-user", func() []byte { return mqtt.VerifPackConnect(4, true, 0, "cid", big, "pw", nil) }, func(p *env.Packet) string { return p.User }},
+		}
+		for _, cs := range cases {
+			if !r.mine() {
+				continue
+			}
+			c.Res.Evaluations++
+			c.Res.Distinct++
+			var raw []byte
+			refused := ""
+			func() {
+				defer func() {
+					if x := recover(); x != nil {
+						refused = fmt.Sprint(x)
+					}
+				}()
+				raw = cs.pack()
+			}()
+			if refused != "" || len(raw) == 0 {
+				continue // nothing was produced
+			}
+			p, _, err := env.Decode(raw)
+			if err != nil || p == nil || cs.get(p) != big {
+				got := -1
+				if p != nil {
+					got = len(cs.get(p))
+				}
+				c.EnumFail("oversize", "oversize-string-encoded/"+cs.name, fmt.Sprintf("%s of %d bytes was packed into %d bytes that decode to a string of %d bytes (decode error %v): the two-byte length prefix cannot carry it and the packer did not refuse", cs.name, n, len(raw), got, err), map[string]any{"field": cs.name, "length": n})
+			}
+		}
+	}
+	r.add("oversize_strings", 10)
 }
